@@ -26,12 +26,16 @@ def first_index(s):
     return int(m.group(1)) if m else None
 
 def standard(ctx, props, harness=None, obl=None, cases=None, trusted=(), assumptions=(), unproved=None,
-             pkg="cmd/keymasterd", race=False, checker=None, timeout=1500, env=None, extra_gen=(), extra_overlay=None, violating=None):
+             pkg="cmd/keymasterd", race=False, checker=None, timeout=1500, env=None, extra_gen=(), extra_overlay=None,
+             model_oracles=(), violating=None):
     """props: list of (module, [theorems]); harness: (test name, [files]); obl: (file, [names]);
        cases: (file, [(definition name, label)], idx file or None);
-       violating: [(definition name, class, idx file)] - index lists printed by the case file: the cases on which the
-       OBSERVED output violates the property's own predicate as the model's specification judges it (evaluated in
-       Coq); each becomes an oracle hit `Cxx:model-oracle:<class>` whose input is the case's idx line"""
+       model_oracles: [(definition name, oracle key, what, idx file)] - lists printed by the case file that hold
+       the indices of the mismatching cases on which the OBSERVATION violates the property's own predicate
+       (the conclusion of the soundness theorem evaluated on the observed output): each index becomes an
+       oracle hit, so that the VIOLATION line carries the failing input;
+       violating: [(definition name, class, idx file)] - the same with the key built as `Cxx:model-oracle:<class>`"""
+    model_oracles = list(model_oracles) + [(n, "%s:model-oracle:%s" % (ctx.pid, k), "the observed output violates the property predicate as evaluated in Coq (the implementation is more permissive than the specification)", f) for n, k, f in (violating or [])]
     for mod, thms in props:
         ctx.audit(mod, thms)
     gen = ctx.extract()
@@ -64,17 +68,17 @@ def standard(ctx, props, harness=None, obl=None, cases=None, trusted=(), assumpt
                         if i < len(lines):
                             first = lines[i]
                     ctx.broken.append(("correspondence", name, {"label": label, "first_mismatch": first, "indices": (mism or "")[:400]}))
-            for name, klass, idxf in (violating or []):
-                val = res.get(name)
-                if not val or val == "[]":
+            for name, key, what, idxf in model_oracles:
+                viol = res.get(name)
+                if viol is None or viol == "[]":
                     continue
                 lines = []
                 if idxf and os.path.exists(os.path.join(ctx.work, idxf)):
                     lines = open(os.path.join(ctx.work, idxf)).read().split("\n")
-                for i in [int(x) for x in re.findall(r"(\d+)", val)][:20]:
-                    case = lines[i] if i < len(lines) else "case #%d" % i
-                    ctx.hits.append({"key": "%s:model-oracle:%s" % (ctx.pid, klass), "oracle": "property predicate evaluated in Coq on the observed output of a case (the implementation is more permissive than the specification)",
-                                     "what": case[:600], "case": {"index": i, "line": case}, "kind": "input"})
+                for m in re.findall(r"\d+", viol.split(":")[0])[:20]:
+                    i = int(m)
+                    ctx.hits.append({"key": key, "oracle": "model-oracle: " + name, "what": what,
+                                     "case": lines[i] if i < len(lines) else "case %d" % i})
     ctx.assumptions = list(assumptions)
     return ctx.finish(checker or ("bin/build-coq; coqc Audit_*/Obl_*/Cases* (lib/core.py); go test -overlay " + (harness[0] if harness else "")),
                       COMMON_TRUSTED + list(trusted), unproved)
